@@ -306,8 +306,24 @@ func asInt(v interface{}) int64 {
 	return -1
 }
 
+// e2eOf: the end-to-end latency block of a row: samples, and per quantile the sample count and the maximum (for a
+// single node's row the maximum is the node's own value)
+func e2eOf(v interface{}) jmap {
+	e := asMap(v)
+	q := func(want string) jmap {
+		for _, p := range asArr(e["percentiles"]) {
+			pm := asMap(p)
+			if n, ok := pm["quantile"].(json.Number); ok && n.String() == want {
+				return jmap{"count": pairOf(pm["count"]), "max": pairOf(pm["max"])}
+			}
+		}
+		return jmap{"count": []int64{-1, -1}, "max": []int64{-1, -1}}
+	}
+	return jmap{"count": pairOf(e["count"]), "p99": q("0.99"), "p50": q("0.5")}
+}
+
 func chanFields(c jmap) jmap {
-	return jmap{"depth": pairOf(c["depth"]), "backend_depth": pairOf(c["backend_depth"]), "memory_depth": pairOf(c["memory_depth"]),
+	return jmap{"e2e": e2eOf(c["e2e_processing_latency"]),"depth": pairOf(c["depth"]), "backend_depth": pairOf(c["backend_depth"]), "memory_depth": pairOf(c["memory_depth"]),
 		"in_flight_count": pairOf(c["in_flight_count"]), "deferred_count": pairOf(c["deferred_count"]),
 		"requeue_count": pairOf(c["requeue_count"]), "timeout_count": pairOf(c["timeout_count"]),
 		"message_count": pairOf(c["message_count"]), "client_count": asInt(c["client_count"]), "paused": asBool(c["paused"])}
@@ -341,10 +357,12 @@ func (vc *viewCell) normalise(kind string, doc jmap) interface{} {
 		nodes := jmap{}
 		for _, n := range asArr(doc["nodes"]) {
 			nm := asMap(n)
-			nodes[asStr(nm["hostname"])] = jmap{"depth": pairOf(nm["depth"]), "message_count": pairOf(nm["message_count"])}
+			nodes[asStr(nm["hostname"])] = jmap{"depth": pairOf(nm["depth"]), "message_count": pairOf(nm["message_count"]),
+				"e2e": e2eOf(nm["e2e_processing_latency"])}
 		}
 		return jmap{"depth": pairOf(doc["depth"]), "backend_depth": pairOf(doc["backend_depth"]),
 			"memory_depth": pairOf(doc["memory_depth"]), "message_count": pairOf(doc["message_count"]),
+			"e2e":    e2eOf(doc["e2e_processing_latency"]),
 			"paused": asBool(doc["paused"]), "channels": chans, "nodes": nodes}
 	case "channel":
 		sum := chanFields(doc)
@@ -352,7 +370,8 @@ func (vc *viewCell) normalise(kind string, doc jmap) interface{} {
 		names := []string{}
 		for _, n := range asArr(doc["nodes"]) {
 			nm := asMap(n)
-			nodes[asStr(nm["hostname"])] = jmap{"depth": pairOf(nm["depth"]), "message_count": pairOf(nm["message_count"])}
+			nodes[asStr(nm["hostname"])] = jmap{"depth": pairOf(nm["depth"]), "message_count": pairOf(nm["message_count"]),
+				"e2e": e2eOf(nm["e2e_processing_latency"])}
 			names = append(names, asStr(nm["hostname"]))
 		}
 		sum["nodes"] = names
